@@ -127,6 +127,10 @@ func (c *fctx) checkOrder(n ast.Node) {
 					calls = append(calls, x)
 				}
 			}
+			if o := c.t.seqWrites(x); o != nil { // [seq] atomic Store / CompareAndSwap / Add
+				written[o] = true
+				calls = append(calls, x)
+			}
 			if fn, _ := c.t.calleeOf(x); fn != nil { // [ext:T20] package-level state written by the callee
 				if fi := c.t.funcs[fn]; fi != nil {
 					for g := range fi.gwrites {
@@ -231,9 +235,12 @@ func (c *fctx) preTaint(n ast.Node, en *env) *env {
 
 // assignTo stores val into lhs (variable, field or indexed element of one of those).
 func (c *fctx) assignTo(lhs ast.Expr, val string, en *env, k func() string) string {
+	if s, ok := c.seqAssign(lhs, val, en, k); ok { // [seq] h.f = v, s[i].f = v
+		return s
+	}
 	if ix, ok := ast.Unparen(lhs).(*ast.IndexExpr); ok {
-		if c.t.exprType(ix.X).k != kSlice {
-			c.t.fail(lhs, "indexed assignment to a non-slice")
+		if g := c.t.exprType(ix.X); g.k != kSlice || g.elem != nil {
+			c.t.fail(lhs, "indexed assignment to a non-slice (or of a whole struct element)")
 		}
 		c.t.exprType(ix)
 		key := c.sliceKey(ix.X, en)
@@ -245,6 +252,7 @@ func (c *fctx) assignTo(lhs ast.Expr, val string, en *env, k func() string) stri
 			})
 		})
 	}
+	c.seqWholeSliceStore(lhs, en) // [seq] no pointer into the slice may be live
 	return c.store(lhs, val, en, k)
 }
 
@@ -372,6 +380,8 @@ func (c *fctx) stmt(s ast.Stmt, en *env, lc *lctx, next kont) string {
 		t.fail(s, "%s here", x.Tok)
 	case *ast.IfStmt:
 		return c.ifStmt(x, en, lc, next)
+	case *ast.SwitchStmt: // [seq] tagless switch -> if / else-if chain
+		return c.switchStmt(x, en, lc, next)
 	case *ast.ForStmt:
 		return c.forStmt(x, en, lc, next)
 	case *ast.RangeStmt:
@@ -402,6 +412,9 @@ func (c *fctx) retTerm(en *env, vs []string) string {
 func (c *fctx) assign(x *ast.AssignStmt, en *env, next kont) string {
 	t := c.t
 	c.checkOrder(x)
+	if s, ok := c.placeDefine(x, en, next); ok { // [seq] h := &s[i]
+		return s
+	}
 	if x.Tok != token.ASSIGN && x.Tok != token.DEFINE { // x op= e
 		ops := map[token.Token]token.Token{token.ADD_ASSIGN: token.ADD, token.SUB_ASSIGN: token.SUB, token.MUL_ASSIGN: token.MUL,
 			token.QUO_ASSIGN: token.QUO, token.REM_ASSIGN: token.REM, token.AND_ASSIGN: token.AND, token.OR_ASSIGN: token.OR,
@@ -573,6 +586,10 @@ func (c *fctx) forStmt(x *ast.ForStmt, en *env, lc *lctx, next kont) string {
 		if x.Cond != nil {
 			c.checkOrder(x.Cond)
 			c.t.assigned(x.Cond, set)
+			// the loop combinator's condition is S -> M bool: an assignment made while evaluating it would be lost
+			if len(set) > 0 {
+				c.t.fail(x.Cond, "loop condition that assigns a variable (a call of a method that writes its receiver, an atomic store)")
+			}
 		}
 		c.t.assigned(x.Body, set)
 		if x.Post != nil {
@@ -635,6 +652,9 @@ func (c *fctx) rangeStmt(x *ast.RangeStmt, en *env, lc *lctx, next kont) string 
 		}
 	}
 	if x.Value != nil && !overInt {
+		if id, ok := x.Value.(*ast.Ident); (!ok || id.Name != "_") && t.exprType(x.X).elem != nil { // [seq]
+			t.fail(x, "range with a value variable over a slice of structs")
+		}
 		set := map[types.Object]bool{}
 		t.assigned(x.Body, set)
 		if o, _ := t.rootObj(x.X); o != nil && set[o] {
@@ -644,7 +664,10 @@ func (c *fctx) rangeStmt(x *ast.RangeStmt, en *env, lc *lctx, next kont) string 
 	c.checkOrder(x.X)
 	return c.expr(x.X, en, func(xs string) string {
 		rng, n, idx := c.fresh("rng"), c.fresh("n"), c.fresh("i")
-		head := fmt.Sprintf("let %s := %s in\nlet %s := zlen %s in\n", rng, xs, n, rng)
+		head := ""
+		if !overInt {
+			head = fmt.Sprintf("let %s := %s in\nlet %s := %s %s in\n", rng, xs, n, lenFn(t.exprType(x.X)), rng) // [seq] zlenA
+		}
 		if overInt {
 			head = fmt.Sprintf("let %s := %s in\n", n, xs)
 		}
@@ -762,12 +785,19 @@ func (t *Translator) emitFunc(fi *funcInfo) string {
 		rt = "(" + rt + ")"
 	}
 	lc := &lctx{ret: func(v string) string { return "Ret " + v }}
-	body := c.stmts(fi.decl.Body.List, en, lc, kont{f: func(e *env) string {
+	list, timed := t.bodyList(fi) // [seq] a timed tail becomes the parameter rest'timed
+	body := c.stmts(list, en, lc, kont{f: func(e *env) string {
+		if timed {
+			return c.tailCall(e, rt)
+		}
 		if len(fi.results) > 0 {
 			t.fail(fi.decl, "control reaches the end of %s, which has results", fi.goName)
 		}
 		return lc.ret(c.retTerm(e, nil))
 	}, cheap: true})
+	if c.tailParam != "" {
+		params = append(params, c.tailParam)
+	}
 	return fmt.Sprintf("(* func %s   (%s) *)\nDefinition %s %s : M %s :=\n%s.\n", fi.goName, t.pos(fi.decl),
 		fi.name, strings.Join(params, " "), rt, strings.TrimRight(indentCoq(body), "\n"))
 }
